@@ -27,7 +27,7 @@ Lemma var_eqb_refl v : var_eqb v v = true.
 Proof.
   unfold var_eqb.
   rewrite (option_eqb_refl value_eqb _ value_eqb_refl), !(option_eqb_refl N.eqb _ N_eqb_refl').
-  destruct (vexp v); reflexivity.
+  destruct (vexp v), (vquirk v); reflexivity.
 Qed.
 
 Lemma mres_eqb_refl m : mres_eqb m m = true.
